@@ -421,32 +421,39 @@ def model_cases_wasm(ctx):
         return pymem_term(rt.heap, b'', mem0, memi.max_size)
     top = PAGE
     quick = ctx.quick()
-    for op, (size, sg, n) in sorted(LOAD_KIND.items()):
-        for off in ((3,) if quick else (0, 3)):
-            for a in ((top - size - off, top - size - off + 1, -4) if quick else
-                      (0, 1, 40, top - size - off, top - size - off + 1, top - off, top, -4, -2 ** 31)):
-                got = call(inst, fn(op, off), (a,))
-                out = OkV(got[1]) if got[0] == 'ok' else Internal
-                cases.append(('wasm_load%s %s %d%%nat %s %d %s %d' % (sfx, snap(), size, 'true' if sg else 'false', n, zt(a), off),
-                              out))
+    # all loads share one heap snapshot: one Coq case per value type, the heap is built once (let m := ...)
+    for vt in ('i32', 'i64'):
+        terms, outs = [], []
+        for op, (size, sg, n) in sorted(LOAD_KIND.items()):
+            if not op.startswith(vt):
+                continue
+            for off in ((3,) if quick else (0, 3)):
+                for a in ((top - size - off, top - size - off + 1, -4) if quick else
+                          (0, 1, 40, top - size - off, top - size - off + 1, top - off, top, -4, -2 ** 31)):
+                    got = call(inst, fn(op, off), (a,))
+                    outs.append(OkV(got[1]) if got[0] == 'ok' else Internal)
+                    terms.append('wasm_load%s m %d%%nat %s %d %s %d' % (sfx, size, 'true' if sg else 'false', n, zt(a), off))
+        cases.append(('let m := %s in [%s]' % (snap(), '; '.join(terms)), outs))
+    # stores: the memory is restored after each real store so that all of them run on the same snapshot
     vals = {32: [0x12345678, -1, -0x7f7f7f80], 64: [0x123456789abcdef0, -1, -0x7f7f7f7f7f7f7f80]}
+    before = snap()
+    saved = bytes(memi.read(0, top))
+    terms, outs = [], []
     for op, (size, n) in sorted(STORE_KIND.items()):
         for off in ((3,) if quick else (0, 3)):
             for k, a in enumerate((top - size - off, top - size - off + 1) if quick else
                                   (64, top - size - off, top - size - off + 1)):
-                before = snap()
                 v = vals[n][k]
                 got = call(inst, fn(op, off), (a, v))
                 lo = max(0, a + off - 8)
-                if got[0] == 'ok':
-                    out = OkV((list(memi.read(lo, 16)) if lo + 16 <= top else list(memi.read(top - 16, 16)), len(rt.heap)))
-                else:
-                    out = Internal
                 lo2 = lo if lo + 16 <= top else top - 16
-                cases.append(('match wasm_store%s %s %d%%nat %d %s %d %s with Ok m => Ok (firstn 16 (skipn (Z.to_nat %d) (wasm_mem m)), '
-                              'len (heap m)) | Internal e => Internal e | Diag c => Diag c | OutOfFuel => OutOfFuel end'
-                              % (sfx, before, size, n, zt(a), off, zt(v), lo2), out))
-    for amount in ((1, 1, 1, 0, -1) if quick else (0, 1, 1, 1, 0, -1, 5)):
+                outs.append(OkV((list(memi.read(lo2, 16)), len(rt.heap))) if got[0] == 'ok' else Internal)
+                memi.write(0, saved)
+                terms.append('match wasm_store%s m %d%%nat %d %s %d %s with Ok m1 => Ok (firstn 16 (skipn (Z.to_nat %d) '
+                             '(wasm_mem m1)), len (heap m1)) | Internal e => Internal e | Diag c => Diag c '
+                             '| OutOfFuel => OutOfFuel end' % (sfx, size, n, zt(a), off, zt(v), lo2))
+    cases.append(('let m := %s in [%s]' % (before, '; '.join(terms)), outs))
+    for amount in ((1, 2, -1) if quick else (0, 1, 1, 1, 0, -1, 5)):
         before = snap()
         try:
             r = memi.grow(amount)
